@@ -78,3 +78,22 @@ Definition run_cookielab (s : sexp) : sexp :=
       end
   | _ => bad_input
   end.
+
+(* whole histories: input (expiry (step ...)), step = (req now (op ...)) | (tamper received); the jar is carried by
+   the model itself ([run_history]), so that what the server serializes at one request is what it parses at the next *)
+Definition d_hstep (s : sexp) : option (hstep string stag) :=
+  match s with
+  | L [A "req"; now; ops] => do now' <- dZ now; do ops' <- dlist d_cop ops; Some (HReq string stag now' ops')
+  | L [A "tamper"; rc] => do rc' <- d_received rc; Some (HTamper string stag rc')
+  | _ => None
+  end.
+Definition run_cookiehist (s : sexp) : sexp :=
+  match s with
+  | L [ex; steps] =>
+      match d_expiry ex, dlist d_hstep steps with
+      | Some ex', Some h =>
+          elist e_dict (run_history string stag nat smac stag_eqb enc_val dec_val as_time of_time 0 ex' (RAbsent stag) h)
+      | _, _ => bad_input
+      end
+  | _ => bad_input
+  end.
